@@ -600,7 +600,9 @@ class Case:
                 "listed variances, Language(scope, namespace, canon=listed (+Top/Bottom) or None); build the "
                 "expression by calling the operators on Source(type) objects (s<k> without a type = Source()), "
                 "same s<k> = same object, then .primitive(); g = TransformationGraph(lang, **switches, **other_switches, "
-                "with_supertype_classes=False); g.add_expr(expr, root)")
+                "with_supertype_classes=False); g.add_expr(expr, root); when other_switches contains `minimal`, "
+                "pass it and leave out every switch whose value equals its default (not minimal; "
+                "with_canonical_types False; with_intermediate_types = with_types)")
         else:
             d["workflow"] = self.spec
             d["how_to_rebuild"] = ("WorkflowDict(root, {out_k: (expression_k, inputs_k)}, sources); "
@@ -615,7 +617,36 @@ def gen_switches(rng):
              "with_canonical_types": 0.2, "with_intermediate_types": 0.8}.get(s, 0.75)
         sw[s] = rng.random() < p
     other = {s: rng.random() < 0.3 for s in OTHER}
+    # a third of the graphs are built the way users build them: `minimal=...` plus only the
+    # switches that depart from their documented defaults (run_impl leaves the others out)
+    if rng.random() < 0.35:
+        other["minimal"] = rng.random() < 0.6
     return sw, other
+
+
+def constructor_kwargs(sw: dict, other: dict) -> dict:
+    """The keyword arguments for TransformationGraph: all switches spelled out, or - when
+    `minimal` is part of the case - only those whose wanted value is not the default
+    (graph.py:62-85: a switch left out is `not minimal`; with_canonical_types and
+    with_supertype_classes are off; with_intermediate_types follows with_types)."""
+    kw = dict(sw)
+    kw.update(other)
+    if "minimal" not in other:
+        return kw
+    m = other["minimal"]
+    want = dict(kw)
+    want.pop("minimal")
+    out = {"minimal": m}
+    for k, v in want.items():
+        if k == "with_canonical_types":
+            dflt = False
+        elif k == "with_intermediate_types":
+            dflt = want["with_types"]
+        else:
+            dflt = not m
+        if v != dflt:
+            out[k] = v
+    return out
 
 
 def gen_cases(rng, nlang: int, per_lang: int):
@@ -860,8 +891,7 @@ def run_impl(case: Case):
     from transforge.graph import TransformationGraph
     from transforge.lang import NonCanonicalTypeError
     L = case.L
-    kw = dict(case.sw)
-    kw.update(case.other)
+    kw = constructor_kwargs(case.sw, case.other)
     g = TransformationGraph(L.language, with_supertype_classes=False, with_transitive_closure=False, **kw)
     case.error = None
     ids, keep = {}, []
